@@ -497,7 +497,7 @@ func init() {
 				items = append(items, c10Item{IC: icn, Pattern: p})
 			}
 		}
-		explore.ParMap(rc, "c10/pattern", items, func(i int, in c10Item, o simpleOut) { mergeSimple(rc, o, "url_cases") })
+		explore.ParMapFresh(rc, "c10/pattern", items, func(i int, in c10Item, o simpleOut) { mergeSimple(rc, o, "url_cases") })
 		var rt []tableItem
 		for _, icn := range []string{"", "I1"} {
 			pool := poolD(icn, "quick")
